@@ -14,6 +14,7 @@ CFG = {'assumptions': ["64*len(words) < 2^31 and len(values)*w < 2^31 (Go's int3
         'bitmap.Slice/NextOne': 'bitmap.NextOne(bitmap.Slice(words, a, b), j, b-a)',
         'bitmap.Slice/PrevOne': 'bitmap.PrevOne(bitmap.Slice(words, a, b), j, b-a)',
         'bitmap.Join/Slice': 'bitmap.Slice(bitmap.Join(values, w), k*w, m*w)',
+        'bitmap.JoinSlice/scribble': 'a session of bitmap.Join / bitmap.Slice calls; the caller overwrites every returned bitmap with junk after rendering it',
         'bitmap.Join/split': 'bitmap.Join([Getw(bm,i,w) for i < 64*len(bm)/w], w)',
 'bitmap.Join': 'bitmap.Join (+ input compared before/after)',
         'bitmap.Getw': 'bitmap.Getw(bitmap.Join(values, w), i, w) for every i',
